@@ -9,16 +9,17 @@ mod verif_kani {
 
     #[kani::proof]
     #[kani::stub(crate::utils::hash_utils::hash_by_alg, stub_hash_by_alg)]
-    #[kani::unwind(14)]
+    #[kani::unwind(5)]
     fn two_chunks_fixed() {
-        const N: usize = 12;
+        const N: usize = 11;
         let payload: [u8; N] = kani::any();
         let split: usize = kani::any();
         kani::assume(split <= N);
         let mut acc = MerkleAccumulator::default();
         acc.fixed_size = Some(2);
-        acc.add_merkle_leaf(0, false, &payload[..split]).unwrap();
-        acc.add_merkle_leaf(0, false, &payload[split..]).unwrap();
+        let r1 = acc.add_merkle_leaf(0, false, &payload[..split]);
+        let r2 = acc.add_merkle_leaf(0, false, &payload[split..]);
+        assert!(r1.is_ok() && r2.is_ok());
         // concatenation of leaves + remainder must equal payload[8..]
         let mut out: Vec<u8> = Vec::new();
         if let Some(ls) = acc.merkle_leaves.get(&0) {
@@ -27,5 +28,29 @@ mod verif_kani {
         if let Some(r) = acc.fixed_size_remainder.get(&0) { out.extend_from_slice(r); }
         assert!(out.len() == N - 8);
         let mut i = 0; while i < N - 8 { assert!(out[i] == payload[8 + i]); i += 1; }
+        std::mem::forget(r1); std::mem::forget(r2); std::mem::forget(acc); std::mem::forget(out);
+    }
+}
+
+#[cfg(test)]
+mod verif_scratch_tests {
+    #![allow(clippy::unwrap_used)]
+    use super::*;
+
+    fn leaves_fixed(chunks: &[&[u8]], fixed: usize) -> (Vec<(u64, Vec<u8>)>, Option<Vec<u8>>) {
+        let mut acc = MerkleAccumulator::default();
+        acc.fixed_size = Some(fixed);
+        for c in chunks { acc.add_merkle_leaf(0, false, c).unwrap(); }
+        (acc.merkle_leaves.get(&0).cloned().unwrap_or_default(), acc.fixed_size_remainder.get(&0).cloned())
+    }
+
+    #[test]
+    fn s1_short_first_chunk() {
+        let payload: Vec<u8> = (0u8..40).collect();
+        let whole = leaves_fixed(&[&payload], 4);
+        for k in 0..=12usize {
+            let split = leaves_fixed(&[&payload[..k], &payload[k..]], 4);
+            println!("S1 split at {k}: same_as_whole={} leaves={} rem={:?}", split == whole, split.0.len(), split.1.as_ref().map(|r| r.len()));
+        }
     }
 }
